@@ -476,7 +476,7 @@ def proj(e, fields=('t', 'k', 'o', 'v', 'w')):
 def compare_replay(model_evs, real_evs, fields):
     """model_evs: list of event dicts from the model path; real_evs: recorded events of the execution.
     Returns index of first mismatch or None."""
-    real = [e for e in real_evs if e['k'] not in LIFE and e['k'] not in NONSTEP]
+    real = [e for e in real_evs if e.get('s', 0) == 1 and e['k'] not in LIFE]
     for i, me in enumerate(model_evs):
         if i >= len(real):
             return i
